@@ -692,7 +692,9 @@ impl Check {
         if self.replay.is_none() {
             let dir = PathBuf::from(VERIF_ROOT).join("evidence");
             let _ = std::fs::create_dir_all(&dir);
-            let path = dir.join(format!("{}.json", self.id));
+            // a second engine flavour serving the same property writes next to the main file
+            let suffix = std::env::var("VERIF_EVIDENCE_SUFFIX").unwrap_or_default();
+            let path = dir.join(format!("{}{}.json", self.id, suffix));
             if let Err(e) = std::fs::write(&path, serde_json::to_string_pretty(&ev).unwrap() + "\n")
             {
                 eprintln!("HARNESS: cannot write evidence: {e}");
